@@ -13,7 +13,8 @@ Input lines
   op       := m <name> <in> <out> | s <name> <sig> | p <name> <sig> <r> <w> <t|f|i> | dm <name> | ds <name>
               | dp <name> | x
 Output
-  doc:  `none` | `err <kind>` | `ok <events>|<result>|<calls>`   (result may be `err <kind>`)
+  doc:  `none` | `err <kind>` | `ok <events>|<result>|<calls>|2|<result of a second parse of the same events with
+        the other flag on the cache left by the first>`   (a result may be `err <kind>`)
   evs:  <result>
   events := event;event;…     event := S,<name>,<k>=<v>,… | E,<name>
   result := R,<ref>,…|C,<name>=<ref>,…|H,<iface>;<iface>;…       ref := k<i> (known object i) | n<j> (j-th new object)
@@ -225,7 +226,11 @@ def docCase : P String := do
         | .ok st =>
           let rec_ := st.result.filterMap id
           let calls := qs.map fun (f, m, n) => showCall (callCheck rec_ f m n)
-          pure (sep "|" ["ok " ++ showEvents evs, showResult ks.length st, sep "," ("Q" :: calls)])
+          -- the same text parsed a second time, with the other flag, on the cache the first parse left
+          let second := match getInterfaces st.heap st.known (!replace) evs with
+            | .error e => "err " ++ errName e
+            | .ok st2 => showResult ks.length st2
+          pure (sep "|" ["ok " ++ showEvents evs, showResult ks.length st, sep "," ("Q" :: calls), "2", second])
 
 def event : P Event := do
   let t ← tok
